@@ -6,6 +6,7 @@ import OcVerif.Driver.Nio
 import OcVerif.Driver.TLCache
 import OcVerif.Driver.Timeouts
 import OcVerif.Driver.RtWait
+import OcVerif.Driver.Co
 /-!
 `ocmodel`: reads history lines `<comp> <id> : <body> => <implementation outputs>` on stdin,
 runs the Lean model on `<body>`, compares with the implementation's outputs and evaluates the
@@ -25,6 +26,7 @@ def dispatch (comp : String) : Option (String → String → Verdict) :=
   | "tlcache" => some Driver.TLCache.drive
   | "timeouts" => some Driver.Timeouts.drive
   | "rtwait" => some Driver.RtWait.drive
+  | "co" => some Driver.Co.drive
   | _ => none
 
 def handle (line : String) : String :=
